@@ -20,6 +20,10 @@ JOBS = {
     "C01": [
         {"cmd": "c01-codec", "race": False, "batches": {"quick": 8, "thorough": 16}, "timeout": {"quick": 600, "thorough": 2400}},
     ],
+    "C02": [
+        {"cmd": "c02-engine", "race": True, "batches": {"quick": 2, "thorough": 6}, "timeout": {"quick": 600, "thorough": 2400}},
+        {"cmd": "c02-wrap", "race": True, "timeout": {"quick": 300, "thorough": 900}},
+    ],
     "C03": [
         {"cmd": "c03-engine", "race": True, "batches": {"quick": 2, "thorough": 6}, "timeout": {"quick": 600, "thorough": 2400}},
         {"cmd": "c03-steer", "race": True, "batches": {"quick": 8, "thorough": 16}, "timeout": {"quick": 900, "thorough": 3600}},
